@@ -79,6 +79,9 @@ inline bool getb(json::object const& o, char const* k, bool d = false)
 	return d;
 }
 
+// thrown from the step hook (kinds 0/3) when a run exceeds its step budget
+struct livelock_error {};
+
 // result of replaying one behaviour
 struct result
 {
